@@ -92,7 +92,9 @@ def run(ck):
     ck.floor("C17-R2", "effectful call sites in cmd_push", len(eff_sites), 3)
     refusals = []
     for bb, idx, s in cmd_push.stmts():
-        if s["k"] == "assign" and s["lhs"]["l"] == 0 and "p" not in s["lhs"] and s["rv"]["k"] == "agg" and s["rv"].get("variant") == "Err":
+        # a refusal is an Err(<message>) built in cmd_push - returned on the spot, or (inside a helper that was inlined) handed to `?`
+        if s["k"] == "assign" and "p" not in s["lhs"] and s["rv"]["k"] == "agg" and s["rv"].get("variant") == "Err" and \
+                (s["rv"].get("adt") or "").endswith("result::Result") and not cmd_push.blocks[bb]["cleanup"]:
             e = df.operand_expr(cmd_push, s["rv"]["ops"][0])
             if df.mentions(e, lambda x: df.is_call(x, "failure::error_message::err_msg")):
                 refusals.append((bb, s))
